@@ -144,7 +144,9 @@ pub const XK_COMPOSE: [(&str, &str); 10] = [
 ];
 pub const XK_REDUCE: [(&str, &str); 7] = [("が", "か"), ("ぎ", "き"), ("ば", "は"), ("ぱ", "は"), ("ヴ", "ウ"), ("\u{fb2a}", "ש"), ("ゟ", "より")];
 
-pub const XC_COMPOSE: [(&str, &str); 11] = [
+pub const XC_COMPOSE: [(&str, &str); 12] = [
+    // an identity pair (a digraph registered as composing to itself: consumes two characters, changes nothing)
+    ("ij", "ij"),
     // a composition to nothing: soft hyphens are dropped
     ("\u{ad}", ""),
     // a composition of two separators into one (typographic dash): texts without any word change their length too
